@@ -107,13 +107,13 @@ static void one_reloc_t(bool x64) {
   }
   else if (type == RelocType::kRelToAbs) {
     if (!has_target) V_ASSERT(err == Error::kInvalidRelocEntry, "RelToAbs without a target section is refused");
-    if (err == Error::kOk) { V_ASSERT(dec == base + toff + payload, "RelToAbs: field holds base + section offset + label offset (never truncated)"); V_WITNESS("rel-to-abs"); }
+    if (err == Error::kOk) { V_ASSERT(dec == base + toff + payload, "RelToAbs: field holds base plus section offset plus label offset (never truncated)"); V_WITNESS("rel-to-abs"); }
     else V_WITNESS("rel-to-abs-refused");
   }
   else if (type == RelocType::kAbsToRel) {
     if (err == Error::kOk) {
-      if (x64) V_ASSERT(next_ip + dec == payload, "AbsToRel 64-bit: end of region + displacement is the absolute target");
-      else V_ASSERT(uint32_t(next_ip + dec) == uint32_t(payload), "AbsToRel 32-bit: end of region + displacement is the target modulo 2^32");
+      if (x64) V_ASSERT(next_ip + dec == payload, "AbsToRel 64-bit: end of region plus displacement is the absolute target");
+      else V_ASSERT(uint32_t(next_ip + dec) == uint32_t(payload), "AbsToRel 32-bit: end of region plus displacement is the target modulo 2 to the 32");
       V_WITNESS("abs-to-rel");
     }
     else {
@@ -182,7 +182,7 @@ static void expr_reloc() {
   uint64_t delta = (sec(sa)->_offset + oa) - (sec(sb)->_offset + ob);
   bool fits = VS == 8 || int64_t(delta) == (int64_t(delta << (64 - 8 * VS)) >> (64 - 8 * VS));
   V_ASSERT((err == Error::kOk) == fits, "label delta accepted iff it fits the signed field");
-  if (err == Error::kOk) { V_ASSERT(F::decode(w) == delta, "label delta field holds (section + label) - (section + base label)"); V_WITNESS("expr-delta"); }
+  if (err == Error::kOk) { V_ASSERT(F::decode(w) == delta, "label delta field holds (section plus label) - (section plus base label)"); V_WITNESS("expr-delta"); }
   else { V_ASSERT(err == Error::kInvalidRelocEntry && w == 0, "label delta that does not fit is reported and nothing is written"); if (VS < 8) V_WITNESS("expr-delta-refused"); }
 }
 HARNESS h_reloc_expr_1() { expr_reloc<kFmtS1>(); }
